@@ -22,6 +22,7 @@ struct Cn {
     inverses_checked: AtomicU64,
     capped: AtomicU64,
     recycled_seeds: AtomicU64,
+    follow_ups: AtomicU64,
     key_inversions: AtomicU64,
 }
 
@@ -82,6 +83,7 @@ fn check_state<K: Kernel<D, Scalar = f64>, const D: usize>(rep: &Report, cn: &Cn
     let before = snap_of(dt);
     let inv_before = comb_invariants(&before);
     let cells_before = before.cell_sets();
+    let mut last_ok: Option<Op> = None;
     for op in model::flip_ops(dt, k1_points, 7000) {
         cn.transitions.fetch_add(1, Ordering::Relaxed);
         let mut d2 = dt.clone();
@@ -95,10 +97,34 @@ fn check_state<K: Kernel<D, Scalar = f64>, const D: usize>(rep: &Report, cn: &Cn
             }
             Ok(Err(e)) => {
                 rep.outcome(&format!("{}:Err({e})", opk(&op)));
+                // "arbitrary sequences of flips" include refused ones: after a refusal that is raised late (the flip
+                // context existed and the replacement cells were being examined), the next successful flip on the very
+                // same object must still leave a structurally valid complex with the prescribed cell count
+                if ["DegenerateCell", "InsertedSimplexAlreadyExists", "DuplicateCell", "NonManifoldFacet"].iter().any(|c| e.contains(c)) {
+                    if let Some(follow) = last_ok.clone() {
+                        let cells0 = dt.number_of_cells() as i64;
+                        if let Ok(Ok(info2)) = do_flip(&mut d2, &follow) {
+                            cn.follow_ups.fetch_add(1, Ordering::Relaxed);
+                            let after = snap_of(&d2);
+                            let l1 = refval::level1(&after);
+                            let lk = lookups_of(&d2, &after);
+                            let l2 = if l1.is_empty() { refval::level2(&after, Some(&lk)) } else { vec![] };
+                            let k2 = info2.kind.k() as i64;
+                            let want = (D as i64 + 2 - k2) - k2;
+                            let delta = d2.number_of_cells() as i64 - cells0;
+                            if let Some(bad) = l1.first().or(l2.first()) {
+                                rep.violation(Finding { signature: json!({"check": "valid_after_refused_then_successful_flip", "D": D, "refused": opk(&op), "error": e}), description: format!("{op:?} was refused ({e}); the following successful {follow:?} on the same object leaves a structurally invalid complex: {bad}"), replay: replay(json!({"then": follow})) });
+                            } else if delta != want {
+                                rep.violation(Finding { signature: json!({"check": "cell_count_after_refused_then_successful_flip", "D": D, "refused": opk(&op), "error": e}), description: format!("{op:?} was refused ({e}); after the following successful {follow:?} the cell count changed by {delta} instead of {want}"), replay: replay(json!({"then": follow})) });
+                            }
+                        }
+                    }
+                }
                 continue;
             }
             Ok(Ok(info)) => info,
         };
+        last_ok = Some(op.clone());
         cn.ok_flips.fetch_add(1, Ordering::Relaxed);
         let k = info.kind.k();
         rep.outcome(&format!("{}:Ok(k={k},{:?})", opk(&op), info.direction));
@@ -255,7 +281,7 @@ fn main() {
     let rep = Report::new("C07", &args);
     let thorough = args.tier == Tier::Thorough;
     let x = usize::from(thorough);
-    let cn = Cn { states: AtomicU64::new(0), transitions: AtomicU64::new(0), ok_flips: AtomicU64::new(0), inverses_checked: AtomicU64::new(0), capped: AtomicU64::new(0), recycled_seeds: AtomicU64::new(0), key_inversions: AtomicU64::new(0) };
+    let cn = Cn { states: AtomicU64::new(0), transitions: AtomicU64::new(0), ok_flips: AtomicU64::new(0), inverses_checked: AtomicU64::new(0), capped: AtomicU64::new(0), recycled_seeds: AtomicU64::new(0), follow_ups: AtomicU64::new(0), key_inversions: AtomicU64::new(0) };
     let mut bounds = Vec::new();
     let cap = if thorough { 3000 } else { 400 };
     run_family::<2>(&rep, &cn, "G2(3) subsets", &alpha::grid::<2>(3), 4..=6 + x, cap, &mut bounds);
@@ -278,6 +304,7 @@ fn main() {
         "inverse_moves_checked": cn.inverses_checked.load(Ordering::Relaxed),
         "exhaustive": cn.capped.load(Ordering::Relaxed) == 0,
         "closures_capped": cn.capped.load(Ordering::Relaxed),
+        "successful_flips_judged_after_a_refused_flip_on_the_same_object": cn.follow_ups.load(Ordering::Relaxed),
         "seeds_with_recycled_vertex_slots": cn.recycled_seeds.load(Ordering::Relaxed),
         "vertex_pairs_with_inverted_key_order_in_those_seeds": cn.key_inversions.load(Ordering::Relaxed),
         "rule": "in every state of the (combinatorial, cap-bounded) closure of each small point set under k>=2 flips: every handle that can be formed for the six Edit-API entry points (every (cell, facet index) incl. D+1 and 255, every ridge pair incl. equal indices, every vertex pair / triple / vertex, stale keys, k=1 insertion at an interior and a far point); every successful flip is judged (L1-L2 reference, invariants preserved, FlipInfo accounting, inverse restores the cell set)",
